@@ -9,8 +9,7 @@
    relation; hence check_c04 accepts every trace the model can emit, for all programs,
    schedules and fuels (EventsOrder.v / Properties_C04_events.v draw the conclusions). *)
 From Coq Require Import NArith ZArith List Bool Arith Lia Permutation.
-From LCP Require Import Base.CheckedMem Events.EventsTrace Events.EventsSpec Events.EventsModel
-  Events.EventsLemmas Events.EventsNetInv Events.EventsSpecProofs.
+From LCP Require Import Base.CheckedMem Events.EventsTrace Events.EventsSpec Events.EventsModel Events.EventsLemmas Events.EventsNetInv Events.EventsHeap Events.EventsSpecProofs.
 Import ListNotations.
 Local Open Scope res_scope.
 Unset Lia Cache.
@@ -376,13 +375,15 @@ Qed.
    components the relation does not mention *)
 Lemma Sim_congr s c s' c' :
   Sim s c ->
-  s_cl s' = s_cl s -> s_imm s' = s_imm s -> s_net s' = s_net s -> s_tmr s' = s_tmr s ->
+  vars (s_cl s') = vars (s_cl s) -> cl_live (s_cl s') = cl_live (s_cl s) ->
+  next_rid (s_cl s') = next_rid (s_cl s) ->
+  s_imm s' = s_imm s -> s_net s' = s_net s -> s_tmr s' = s_tmr s ->
   s_env s' = s_env s ->
   c_live c' = c_live c -> c_used c' = c_used c -> c_lastpoll c' = c_lastpoll c ->
   Sim s' c'.
 Proof.
-  intros HS E1 E2 E3 E4 E5 F1 F2 F3. destruct HS.
-  constructor; unfold live_rid in *; rewrite ?E1, ?E2, ?E3, ?E4, ?E5, ?F1, ?F2, ?F3; auto.
+  intros HS E1a E1b E1c E2 E3 E4 E5 F1 F2 F3. destruct HS.
+  constructor; unfold live_rid in *; rewrite ?E1a, ?E1b, ?E1c, ?E2, ?E3, ?E4, ?E5, ?F1, ?F2, ?F3; auto.
 Qed.
 
 Lemma Good_neutral s e :
@@ -781,12 +782,12 @@ Proof.
 Qed.
 
 (* events_network_get *)
-Lemma good_net_get_none s s1 : Good s -> net_inited (s_net s) = true -> net_get_s s = Ok (None, s1) -> Good s1.
+Lemma good_net_get_none s s1 : Good s -> net_get_s s = Ok (None, s1) -> Good s1.
 Proof.
-  intros [c [Hc HS]] Hin H. unfold net_get_s in H.
+  intros [c [Hc HS]] H. unfold net_get_s in H.
   destruct (net_get (s_net s)) as [[ro n]| | |] eqn:E; cbn [bind] in H; try discriminate.
   inversion H; subst ro s1.
-  destruct (net_get_spec (s_net s) None n (sm_net s c HS) Hin E) as [HIn [_ [[G1 G2] Hres]]]. simpl in Hres.
+  destruct (net_get_spec (s_net s) None n (sm_net s c HS) E) as [HIn [[G1 G2] Hres]]. simpl in Hres.
   exists c. split; [exact Hc|].
   apply Sim_build.
   - exact (conj (sm_nodup _ _ HS) (conj (sm_used _ _ HS) (conj (sm_fresh _ _ HS) (conj (sm_cl _ _ HS)
@@ -803,13 +804,13 @@ Proof.
 Qed.
 
 Lemma good_net_get_some s r s1 :
-  Good s -> net_inited (s_net s) = true -> net_get_s s = Ok (Some r, s1) ->
+  Good s -> net_get_s s = Ok (Some r, s1) ->
   Good (emit (EInvoke (r_rid r)) (fire_cl r s1)).
 Proof.
-  intros [c [Hc HS]] Hin H. unfold net_get_s in H.
+  intros [c [Hc HS]] H. unfold net_get_s in H.
   destruct (net_get (s_net s)) as [[ro n]| | |] eqn:E; cbn [bind] in H; try discriminate.
   inversion H; subst ro s1.
-  destruct (net_get_spec (s_net s) (Some r) n (sm_net s c HS) Hin E) as [HIn [_ [Hrel Hres]]].
+  destruct (net_get_spec (s_net s) (Some r) n (sm_net s c HS) E) as [HIn [Hrel Hres]].
   destruct Hres as [s0 [dir [Hrc [Hf Hjust]]]].
   pose proof (sm_net1 s c HS _ _ _ Hrc) as Hlr. destruct Hlr as [g [Hg [Er Hk]]].
   assert (Hfind : find_reg (r_rid r) (c_live c) = Some g).
@@ -996,20 +997,22 @@ Qed.
 
 Lemma Good_congr s s' :
   Good s -> s_tr s' = s_tr s ->
-  s_cl s' = s_cl s -> s_imm s' = s_imm s -> s_net s' = s_net s -> s_tmr s' = s_tmr s -> s_env s' = s_env s ->
+  vars (s_cl s') = vars (s_cl s) -> cl_live (s_cl s') = cl_live (s_cl s) ->
+  next_rid (s_cl s') = next_rid (s_cl s) ->
+  s_imm s' = s_imm s -> s_net s' = s_net s -> s_tmr s' = s_tmr s -> s_env s' = s_env s ->
   Good s'.
 Proof.
-  intros [c [Hc HS]] E0 E1 E2 E3 E4 E5. exists c. split; [rewrite E0; exact Hc|].
+  intros [c [Hc HS]] E0 E1a E1b E1c E2 E3 E4 E5. exists c. split; [rewrite E0; exact Hc|].
   eapply Sim_congr; eauto.
 Qed.
 
 Lemma good_poll_loop timeout pl : forall s, Good s -> Good (poll_loop timeout pl s).
 Proof.
   induction pl as [|a rest IH]; intros s HG; cbn [poll_loop].
-  - eapply Good_congr; [apply (good_poll_eintr s timeout true []); exact HG | | | | | |]; reflexivity.
+  - eapply Good_congr; [apply (good_poll_eintr s timeout true []); exact HG | | | | | | | |]; reflexivity.
   - destruct a as [raw | [|]].
     + apply good_poll_ready. exact HG.
-    + eapply Good_congr; [apply (good_poll_eintr s timeout true rest); exact HG | | | | | |]; reflexivity.
+    + eapply Good_congr; [apply (good_poll_eintr s timeout true rest); exact HG | | | | | | | |]; reflexivity.
     + destruct (s_intr s).
       * apply good_poll_eintr. exact HG.
       * apply IH. apply good_poll_eintr. exact HG.
@@ -1032,7 +1035,7 @@ Proof.
   intros [c [Hc HS]] HI Hf Hr. exists c. split; [exact Hc|]. apply sim_net_views; auto.
 Qed.
 
-Lemma good_net_select tvo s : Good s -> Good (net_select tvo s) /\ net_inited (s_net (net_select tvo s)) = true.
+Lemma good_net_select tvo s : Good s -> Good (net_select tvo s).
 Proof.
   intros HG. unfold net_select.
   assert (HG1 : Good (set_net s (net_init (s_net s)))).
@@ -1043,10 +1046,453 @@ Proof.
   set (s0 := set_net s (net_init (s_net s))) in *.
   pose proof (good_poll_loop (sel_timeout tvo) (polls (s_env s0)) s0 HG1) as HG2.
   set (s1 := poll_loop (sel_timeout tvo) (polls (s_env s0)) s0) in *.
-  split.
-  - destruct HG2 as [c [Hc HS]]. apply good_set_net_views; [exists c; auto | | |].
-    + pose proof (sm_net s1 c HS) as HI. destruct HI. constructor; simpl; auto.
-    + intros f d. reflexivity.
-    + intros f. reflexivity.
-  - simpl. unfold s1. rewrite poll_loop_inited. unfold s0. simpl. apply net_init_inited.
+  destruct HG2 as [c [Hc HS]]. apply good_set_net_views; [exists c; auto | | |].
+  - pose proof (sm_net s1 c HS) as HI. destruct HI. constructor; simpl; auto.
+  - intros f d. reflexivity.
+  - intros f. reflexivity.
 Qed.
+
+(* ================================================================ timers *)
+Lemma cstep4_reset c r g now :
+  find_reg r (c_live c) = Some g -> c_clock c = Some now -> is_timer (g_kind g) = true ->
+  cstep4 c (EReset r) =
+  Some {| c_live := map (set_due r (us now)) (c_live c); c_used := c_used c;
+          c_lastpoll := c_lastpoll c; c_clock := Some now |}.
+Proof. intros H1 H2 H3. unfold cstep4. rewrite H1, H2, H3. reflexivity. Qed.
+
+Definition trid (x : timer) : nat := r_rid (t_rec x).
+
+(* the timer clauses for a heap that is the old one without the element carrying id r *)
+Lemma sim_tmr_removed s c r x h :
+  Sim s c -> Permutation (heap (s_tmr s)) (x :: h) -> trid x = r ->
+  let c' := {| c_live := remove_reg r (c_live c); c_used := c_used c; c_lastpoll := c_lastpoll c;
+               c_clock := c_clock c |} in
+  (forall y, In y h ->
+      exists g, In g (c_live c') /\ g_rid g = r_rid (t_rec y) /\ g_kind g = KTimer (t_orig y) /\
+                g_due g = us (t_deadline y) /\ tv_norm (t_deadline y) = true /\ tv_norm (t_orig y) = true) /\
+  NoDup (map (fun y => r_rid (t_rec y)) h).
+Proof.
+  intros HS Hp Hr c'.
+  assert (Hnd : NoDup (map trid (x :: h))).
+  { eapply Permutation_NoDup; [apply Permutation_map; exact Hp | apply (sm_tmr_nodup s c HS)]. }
+  simpl in Hnd. inversion Hnd as [|? ? Hnotin Hndh]. subst.
+  split; [|exact Hndh].
+  intros y Hy. assert (Hyh : In y (heap (s_tmr s))).
+  { eapply Permutation_in; [symmetry; exact Hp | right; exact Hy]. }
+  destruct (sm_tmr s c HS y Hyh) as [g [A [B C]]]. exists g. split; [|auto].
+  simpl. apply in_remove_reg. split; [exact A|]. rewrite B. intros E. apply Hnotin.
+  rewrite <- E. change (In (trid y) (map trid h)). apply in_map. exact Hy.
+Qed.
+
+Lemma good_timer_reg s cb t var s' :
+  Good s -> tv_norm t = true -> exec_op (OTimerReg cb t var 0) s = Ok s' -> Good s'.
+Proof.
+  intros HG Ht H. unfold exec_op in H. cbn [Nat.eqb negb] in H.
+  destruct (timer_register cb t (next_rid (s_cl s)) s) as [s1| | |] eqn:Er; cbn [bind] in H; try discriminate.
+  inversion H; subst s'. clear H.
+  unfold timer_register in Er. destruct (read_clock s) as [now s0] eqn:Ec.
+  destruct (read_clock_good s now s0 HG Ec) as [Hnow [Ecl [Eimm [Enet [Etmr [_ [c [Hc [HS [Hc0 HS0]]]]]]]]]].
+  set (c0 := {| c_live := c_live c; c_used := c_used c; c_lastpoll := c_lastpoll c; c_clock := Some now |}) in *.
+  set (x := {| t_deadline := add_timeout now t; t_orig := t; t_rec := {| r_cb := cb; r_rid := next_rid (s_cl s) |} |}) in *.
+  destruct (heap_add x (heap (s_tmr s0))) as [h| | |] eqn:Eh; cbn [bind] in Er; try discriminate.
+  inversion Er; subst s1. clear Er. apply heap_add_perm in Eh.
+  rewrite <- Ecl in *. set (rid := next_rid (s_cl s0)) in *.
+  eapply Good_emit; [exact Hc0 | apply (cstep4_reg_timer c0 rid t now); [apply (sim_next_unused s0 c0 HS0) | reflexivity] | reflexivity |].
+  apply Sim_build.
+  - eapply (add_common s0 _ c0 (KTimer t) (us now + us t)%N HS0 (Some (var, HTimer))); try reflexivity.
+    intros v p X. discriminate X.
+  - apply (add_frame_imm s0 _ c0 (KTimer t) (us now + us t)%N HS0). reflexivity.
+  - apply (add_frame_net s0 _ c0 (KTimer t) (us now + us t)%N HS0 None); [intros v p X; discriminate X | reflexivity | reflexivity].
+  - simpl. split.
+    + intros y Hy. assert (Hy' : In y (x :: heap (s_tmr s0))) by (eapply Permutation_in; [symmetry; exact Eh | exact Hy]).
+      destruct Hy' as [<- | Hy'].
+      * eexists. split; [left; reflexivity|]. simpl.
+        split; [unfold rid; rewrite Ecl; reflexivity|]. split; [reflexivity|].
+        split; [symmetry; apply us_add_timeout|]. split; [apply norm_add_timeout; assumption | exact Ht].
+      * destruct (sm_tmr s0 c0 HS0 y Hy') as [g [A B]]. exists g. split; [right; exact A | exact B].
+    + eapply Permutation_NoDup; [apply Permutation_map; exact Eh|]. simpl. constructor; [|apply (sm_tmr_nodup s0 c0 HS0)].
+      intros X. apply in_map_iff in X. destruct X as [y [E Hy]].
+      destruct (sm_tmr s0 c0 HS0 y Hy) as [g [A [B _]]]. pose proof (sim_in_lt s0 c0 g HS0 A) as L.
+      simpl in E. rewrite <- Ecl in E. rewrite B, E in L. lia.
+Qed.
+
+Lemma good_timer_cancel s var s' :
+  Good s -> exec_op (OTimerCancel var) s = Ok s' -> Good s'.
+Proof.
+  intros HG H. unfold exec_op in H.
+  destruct (get_var var (vars (s_cl s))) as [[r [prio|]]|] eqn:Ev; try (inversion H; subst; exact HG).
+  destruct (EventsModel.mem_nat r (cl_live (s_cl s))) eqn:Em; [|inversion H; subst; exact HG].
+  destruct (timer_cancel r s) as [s1| | |] eqn:Et; cbn [bind] in H; try discriminate.
+  inversion H; subst s'. clear H.
+  destruct HG as [c [Hc HS]]. apply model_mem_nat in Em.
+  unfold timer_cancel in Et. destruct (heap_index r (heap (s_tmr s))) as [i|] eqn:Ei; [|discriminate].
+  destruct (heap_delete i (heap (s_tmr s))) as [h| | |] eqn:Ed; cbn [bind] in Et; try discriminate.
+  inversion Et; subst s1. clear Et.
+  destruct (heap_index_some _ _ _ Ei) as [x [Hx Hxr]].
+  destruct (heap_delete_perm _ _ _ Ed) as [x' [Hx' Hp]]. assert (x' = x) by congruence. subst x'.
+  destruct (sm_tmr s c HS x (nth_error_In _ _ Hx)) as [g [Hg [Er [Hk _]]]]. rewrite Hxr in Er.
+  assert (Hfind : find_reg r (c_live c) = Some g).
+  { rewrite <- Er. apply find_reg_in; [apply (sm_nodup s c HS) | exact Hg]. }
+  assert (Hlr : live_rid c r (KTimer (t_orig x))) by (exists g; auto).
+  eapply Good_emit; [exact Hc | eapply cstep4_cancel; eauto | reflexivity |].
+  apply Sim_build.
+  - apply (rm_common s _ c r HS); reflexivity.
+  - apply (rm_frame_imm s _ c r _ HS Hlr); reflexivity.
+  - apply (rm_frame_net s _ c r _ HS Hlr); reflexivity.
+  - simpl. apply (sim_tmr_removed s c r x h HS Hp Hxr).
+Qed.
+
+Lemma set_due_ready r b g : g_ready (set_due r b g) = g_ready g.
+Proof. unfold set_due. destruct (Nat.eqb (g_rid g) r); auto. destruct (g_kind g); auto. Qed.
+
+Lemma good_timer_reset s var s' :
+  Good s -> exec_op (OTimerReset var) s = Ok s' -> Good s'.
+Proof.
+  intros HG H. unfold exec_op in H.
+  destruct (get_var var (vars (s_cl s))) as [[r [prio|]]|] eqn:Ev; try (inversion H; subst; exact HG).
+  destruct (EventsModel.mem_nat r (cl_live (s_cl s))) eqn:Em; [|inversion H; subst; exact HG].
+  destruct (timer_reset r s) as [s1| | |] eqn:Et; cbn [bind] in H; try discriminate.
+  inversion H; subst s'. clear H.
+  unfold timer_reset in Et. destruct (heap_index r (heap (s_tmr s))) as [i|] eqn:Ei; [|discriminate].
+  destruct (rdn (heap (s_tmr s)) i) as [x| | |] eqn:Ex; cbn [bind] in Et; try discriminate. apply rdn_ok in Ex.
+  destruct (read_clock s) as [now s0] eqn:Ec.
+  destruct (read_clock_good s now s0 HG Ec) as [Hnow [Ecl [Eimm [Enet [Etmr [_ [c [Hc [HS [Hc0 HS0]]]]]]]]]].
+  set (c0 := {| c_live := c_live c; c_used := c_used c; c_lastpoll := c_lastpoll c; c_clock := Some now |}) in *.
+  set (x' := {| t_deadline := add_timeout now (t_orig x); t_orig := t_orig x; t_rec := t_rec x |}) in *.
+  rewrite Etmr in Et.
+  match type of Et with (let* h := ?e in _) = _ => destruct e as [h| | |] eqn:Eh end; cbn [bind] in Et; try discriminate.
+  inversion Et; subst s1. clear Et. apply heapify_perm in Eh.
+  destruct (heap_index_some _ _ _ Ei) as [x0 [Hx0 Hxr]]. assert (x0 = x) by congruence. subst x0.
+  rewrite <- Etmr in Ex, Eh.
+  destruct (sm_tmr s0 c0 HS0 x (nth_error_In _ _ Ex)) as [g [Hg [Er [Hk [_ [_ Horig]]]]]]. rewrite Hxr in Er.
+  assert (Hfind : find_reg r (c_live c0) = Some g).
+  { rewrite <- Er. apply find_reg_in; [apply (sm_nodup s0 c0 HS0) | exact Hg]. }
+  eapply Good_emit; [exact Hc0 | apply (cstep4_reset c0 r g now Hfind eq_refl); rewrite Hk; reflexivity | reflexivity |].
+  destruct (upd_nth_split _ _ _ Ex) as [rest [P1 P2]].
+  assert (Hnd : NoDup (map trid (x :: rest))).
+  { eapply Permutation_NoDup; [apply Permutation_map; exact P1 | apply (sm_tmr_nodup s0 c0 HS0)]. }
+  simpl in Hnd. apply NoDup_cons_iff in Hnd. destruct Hnd as [Hnotin Hndr].
+  apply Sim_build.
+  - apply (map_common s0 _ c0 (set_due r (us now)) (c_lastpoll c0) (Some now) HS0 (set_due_ids r (us now))); reflexivity.
+  - apply (map_frame_imm s0 _ c0 (set_due r (us now)) (c_lastpoll c0) (Some now) HS0 (set_due_ids r (us now))); reflexivity.
+  - apply (map_frame_net s0 _ c0 (set_due r (us now)) (c_lastpoll c0) (Some now) HS0 (set_due_ids r (us now)));
+      try reflexivity. intros g0 Hg0. rewrite set_due_ready. exact Hg0.
+  - simpl. split.
+    + intros y Hy.
+      assert (Hy' : In y (x' :: rest)).
+      { eapply Permutation_in; [apply P2|]. eapply Permutation_in; [symmetry; exact Eh | exact Hy]. }
+      destruct Hy' as [<- | Hy'].
+      * exists (set_due r (us now) g). split; [apply in_map; exact Hg|].
+        destruct (set_due_ids r (us now) g) as [X Y]. rewrite X, Y. simpl.
+        split; [rewrite Er; symmetry; exact Hxr|]. split; [exact Hk|]. split.
+        -- unfold set_due. rewrite Er, Nat.eqb_refl, Hk. simpl. symmetry. apply us_add_timeout.
+        -- split; [apply norm_add_timeout; assumption | exact Horig].
+      * assert (Hyh : In y (heap (s_tmr s0))) by (eapply Permutation_in; [symmetry; exact P1 | right; exact Hy']).
+        destruct (sm_tmr s0 c0 HS0 y Hyh) as [g1 [A [B C]]].
+        exists (set_due r (us now) g1). split; [apply in_map; exact A|].
+        assert (Hne : Nat.eqb (g_rid g1) r = false).
+        { apply Nat.eqb_neq. rewrite B. intros E. apply Hnotin. unfold trid at 1. rewrite Hxr, <- E. apply (in_map trid). exact Hy'. }
+        unfold set_due. rewrite Hne. auto.
+    + eapply Permutation_NoDup; [apply Permutation_map; exact Eh|].
+      eapply Permutation_NoDup; [apply Permutation_map; symmetry; apply P2|]. simpl. constructor; assumption.
+Qed.
+
+Lemma read_clock_Good s now s1 : Good s -> read_clock s = (now, s1) -> Good s1.
+Proof.
+  intros HG H. destruct (read_clock_good s now s1 HG H) as [_ [_ [_ [_ [_ [_ [c [_ [_ [Hc0 HS0]]]]]]]]]].
+  eexists. split; [exact Hc0 | exact HS0].
+Qed.
+
+Lemma good_timer_min s tvo s1 : Good s -> timer_min s = (tvo, s1) -> Good s1 /\ s_net s1 = s_net s.
+Proof.
+  intros HG H. unfold timer_min in H.
+  destruct (tq_inited (s_tmr s)); [|inversion H; subst; auto].
+  destruct (heap (s_tmr s)) as [|m rest]; [inversion H; subst; auto|].
+  destruct (read_clock s) as [now s0] eqn:Ec.
+  assert (Good s0 /\ s_net s0 = s_net s).
+  { split; [eapply read_clock_Good; eauto|]. destruct (read_clock_good s now s0 HG Ec) as [_ [_ [_ [E _]]]]. exact E. }
+  destruct ((fst (t_deadline m) <? fst now)%N || ((fst (t_deadline m) =? fst now)%N && (snd (t_deadline m) <? snd now)%N));
+    [inversion H; subst; exact H0|].
+  destruct (snd (t_deadline m) <? snd now)%N; inversion H; subst; exact H0.
+Qed.
+
+Lemma good_timer_get_none s s1 : Good s -> timer_get s = Ok (None, s1) -> Good s1.
+Proof.
+  intros HG H. unfold timer_get in H.
+  destruct (tq_inited (s_tmr s)); [|inversion H; subst; exact HG].
+  destruct (read_clock s) as [now s0] eqn:Ec. pose proof (read_clock_Good s now s0 HG Ec) as HG0.
+  destruct (heap (s_tmr s0)) as [|m rest]; [inversion H; subst; exact HG0|].
+  destruct (tv_cmp (t_deadline m) now); try (inversion H; subst; exact HG0);
+    destruct (heap_delete 0 (m :: rest)) as [h| | |]; cbn [bind] in H; discriminate.
+Qed.
+
+Lemma good_timer_get_some s r s1 :
+  Good s -> timer_get s = Ok (Some r, s1) -> Good (emit (EInvoke (r_rid r)) (fire_cl r s1)).
+Proof.
+  intros HG H. unfold timer_get in H.
+  destruct (tq_inited (s_tmr s)); [|discriminate].
+  destruct (read_clock s) as [now s0] eqn:Ec.
+  destruct (read_clock_good s now s0 HG Ec) as [Hnow [Ecl [Eimm [Enet [Etmr [_ [c [Hc [HS [Hc0 HS0]]]]]]]]]].
+  set (c0 := {| c_live := c_live c; c_used := c_used c; c_lastpoll := c_lastpoll c; c_clock := Some now |}) in *.
+  destruct (heap (s_tmr s0)) as [|m rest] eqn:Eheap; [discriminate|].
+  destruct (tv_cmp (t_deadline m) now) eqn:Ecmp; try discriminate;
+    (destruct (heap_delete 0 (m :: rest)) as [h| | |] eqn:Ed; cbn [bind] in H; try discriminate;
+     inversion H; subst r s1; clear H;
+     destruct (heap_delete_perm _ _ _ Ed) as [x [Hx Hp]]; simpl in Hx; inversion Hx; subst x;
+     assert (Hin : In m (heap (s_tmr s0))) by (rewrite Eheap; left; reflexivity);
+     destruct (sm_tmr s0 c0 HS0 m Hin) as [g [Hg [Er [Hk [Hdue [Hnorm _]]]]]];
+     assert (Hfind : find_reg (r_rid (t_rec m)) (c_live c0) = Some g)
+       by (rewrite <- Er; apply find_reg_in; [apply (sm_nodup s0 c0 HS0) | exact Hg]);
+     assert (Hlr : live_rid c0 (r_rid (t_rec m)) (KTimer (t_orig m))) by (exists g; auto);
+     assert (Hle : (g_due g <=? us now)%N = true)
+       by (apply N.leb_le; rewrite Hdue; apply tv_cmp_not_gt_us; [exact Hnorm | rewrite Ecmp; discriminate]);
+     eapply Good_emit; [exact Hc0 | eapply cstep4_invoke; [exact Hfind | rewrite Hk; exact Hle] | reflexivity |];
+     apply Sim_build;
+     [ apply (rm_common s0 _ c0 (r_rid (t_rec m)) HS0); reflexivity
+     | apply (rm_frame_imm s0 _ c0 (r_rid (t_rec m)) _ HS0 Hlr); reflexivity
+     | apply (rm_frame_net s0 _ c0 (r_rid (t_rec m)) _ HS0 Hlr); reflexivity
+     | simpl; apply (sim_tmr_removed s0 c0 (r_rid (t_rec m)) m h HS0); [rewrite Eheap; exact Hp | reflexivity] ]).
+Qed.
+
+(* ================================================================ one API call *)
+Definition op_norm (o : op) : Prop :=
+  match o with OTimerReg _ t _ _ => tv_norm t = true | _ => True end.
+
+Lemma good_exec_op o s s' : Good s -> op_norm o -> exec_op o s = Ok s' -> Good s'.
+Proof.
+  intros HG Hn H. destruct o.
+  - (* OImmReg *) destruct af as [|af].
+    + eapply good_imm_reg; eauto.
+    + unfold exec_op in H. cbn [Nat.eqb negb] in H. inversion H; subst. apply Good_neutral; simpl; auto.
+  - eapply good_imm_cancel; eauto.
+  - (* ONetReg *) destruct af as [|af].
+    + eapply good_net_reg; eauto.
+    + unfold exec_op in H. cbn [Nat.eqb negb] in H. inversion H; subst. apply Good_neutral; simpl; auto. discriminate.
+  - eapply good_net_cancel; eauto.
+  - (* OTimerReg *) destruct af as [|[|af]].
+    + eapply good_timer_reg; eauto.
+    + unfold exec_op in H. cbn [Nat.eqb negb] in H. inversion H; subst. apply Good_neutral; simpl; auto.
+    + unfold exec_op in H. cbn [Nat.eqb negb] in H. destruct (read_clock s) as [now s1] eqn:Ec.
+      inversion H; subst. apply Good_neutral; simpl; auto. eapply read_clock_Good; eauto.
+  - eapply good_timer_cancel; eauto.
+  - eapply good_timer_reset; eauto.
+  - unfold exec_op in H. inversion H; subst. apply Good_neutral; [|exact I].
+    eapply Good_congr; [exact HG | | | | | | | |]; reflexivity.
+  - unfold exec_op in H. inversion H; subst. apply Good_neutral; [|exact I].
+    eapply Good_congr; [exact HG | | | | | | | |]; reflexivity.
+Qed.
+
+Lemma good_exec_ops l : forall s s', Good s -> Forall op_norm l -> exec_ops l s = Ok s' -> Good s'.
+Proof.
+  induction l as [|o l IH]; intros s s' HG Hn H; simpl in H.
+  - inversion H; subst. exact HG.
+  - destruct (exec_op o s) as [s1| | |] eqn:E; cbn [bind] in H; try discriminate.
+    inversion Hn; subst. eapply IH; [|eassumption|exact H]. eapply good_exec_op; eauto.
+Qed.
+
+(* ================================================================ events.c: the dispatcher *)
+Definition script_norm (sc : script) : Prop := Forall op_norm (fst sc).
+Definition prog_norm (p : program) : Prop := Forall (Forall script_norm) p.
+Definition xop_norm (x : xop) : Prop := match x with XOp o => op_norm o | _ => True end.
+
+Lemma get_script_norm p cb k : prog_norm p -> script_norm (get_script p cb k).
+Proof.
+  intros Hp. unfold get_script.
+  assert (Hs : Forall script_norm (nth cb p [])).
+  { destruct (nth_in_or_default cb p []) as [H | ->]; [|constructor].
+    unfold prog_norm in Hp. rewrite Forall_forall in Hp. apply Hp. exact H. }
+  destruct (nth_in_or_default k (nth cb p []) ([], 0%Z)) as [H | ->].
+  - rewrite Forall_forall in Hs. apply Hs. exact H.
+  - constructor.
+Qed.
+
+Section DispatcherProofs.
+  Variable prog : program.
+  Hypothesis Hprog : prog_norm prog.
+
+  (* the callback of r is being entered *)
+  Definition Entering (r : rec) (s : st) : Prop := Good (emit (EInvoke (r_rid r)) (fire_cl r s)).
+
+  Lemma good_doevent r s rc s' : Entering r s -> doevent prog r s = Ok (rc, s') -> Good s'.
+  Proof.
+    intros HE H. unfold doevent in H.
+    match type of H with (let* s2 := exec_ops ?l ?st in _) = _ =>
+      destruct (exec_ops l st) as [s2| | |] eqn:E end; cbn [bind] in H; try discriminate.
+    inversion H; subst rc s'. apply Good_neutral; [|exact I].
+    eapply good_exec_ops; [exact HE | apply get_script_norm; exact Hprog | exact E].
+  Qed.
+
+  Lemma good_drain fuel : forall r s rc s', Entering r s -> drain_loop prog fuel r s = Ok (rc, s') -> Good s'.
+  Proof.
+    induction fuel as [|fuel IH]; intros r s rc s' HE H; cbn [drain_loop] in H; [discriminate|].
+    destruct (doevent prog r s) as [[rc1 s1]| | |] eqn:Ed; cbn [bind] in H; try discriminate.
+    pose proof (good_doevent r s rc1 s1 HE Ed) as HG1.
+    destruct (negb (rc1 =? 0)%Z); [inversion H; subst; exact HG1|].
+    destruct (s_intr s1); [inversion H; subst; exact HG1|].
+    destruct (imm_get_s s1) as [[ro s2]| | |] eqn:Ei; cbn [bind] in H; try discriminate.
+    destruct ro as [r'|].
+    - eapply IH; [|exact H]. eapply good_imm_get_some; eauto.
+    - inversion H; subst. eapply good_imm_get_none; eauto.
+  Qed.
+
+  Lemma good_main fuel : forall s rc s', Good s -> main_loop prog fuel s = Ok (rc, s') -> Good s'.
+  Proof.
+    induction fuel as [|fuel IH]; intros s rc s' HG H; cbn [main_loop] in H; [discriminate|].
+    destruct (s_intr s); [inversion H; subst; exact HG|].
+    destruct (imm_get_s s) as [[ro s1]| | |] eqn:E1; cbn [bind] in H; try discriminate.
+    destruct ro as [r|].
+    { destruct (doevent prog r s1) as [[rc1 s2]| | |] eqn:Ed; cbn [bind] in H; try discriminate.
+      assert (HG2 : Good s2) by (eapply good_doevent; [eapply good_imm_get_some; eauto | exact Ed]).
+      destruct (negb (rc1 =? 0)%Z); [inversion H; subst; exact HG2 | eapply IH; eauto]. }
+    assert (HG1 : Good s1) by (eapply good_imm_get_none; eauto).
+    destruct (net_get_s s1) as [[ro s2]| | |] eqn:E2; cbn [bind] in H; try discriminate.
+    destruct ro as [r|].
+    { destruct (doevent prog r s2) as [[rc1 s3]| | |] eqn:Ed; cbn [bind] in H; try discriminate.
+      assert (HG3 : Good s3) by (eapply good_doevent; [eapply good_net_get_some; eauto | exact Ed]).
+      destruct (negb (rc1 =? 0)%Z); [inversion H; subst; exact HG3 | eapply IH; eauto]. }
+    assert (HG2 : Good s2) by (eapply good_net_get_none; eauto).
+    pose proof (good_net_select (Some (0, 0)%N) s2 HG2) as HG3.
+    set (s3 := net_select (Some (0, 0)%N) s2) in *.
+    destruct (net_get_s s3) as [[ro s4]| | |] eqn:E4; cbn [bind] in H; try discriminate.
+    destruct ro as [r|].
+    { destruct (doevent prog r s4) as [[rc1 s5]| | |] eqn:Ed; cbn [bind] in H; try discriminate.
+      assert (HG5 : Good s5) by (eapply good_doevent; [eapply good_net_get_some; eauto | exact Ed]).
+      destruct (negb (rc1 =? 0)%Z); [inversion H; subst; exact HG5 | eapply IH; eauto]. }
+    assert (HG4 : Good s4) by (eapply good_net_get_none; eauto).
+    destruct (timer_get s4) as [[ro s5]| | |] eqn:E5; cbn [bind] in H; try discriminate.
+    destruct ro as [r|].
+    { destruct (doevent prog r s5) as [[rc1 s6]| | |] eqn:Ed; cbn [bind] in H; try discriminate.
+      assert (HG6 : Good s6) by (eapply good_doevent; [eapply good_timer_get_some; eauto | exact Ed]).
+      destruct (negb (rc1 =? 0)%Z); [inversion H; subst; exact HG6 | eapply IH; eauto]. }
+    inversion H; subst. eapply good_timer_get_none; eauto.
+  Qed.
+
+  Lemma good_run_internal fuel s rc s' : Good s -> run_internal prog fuel s = Ok (rc, s') -> Good s'.
+  Proof.
+    intros HG H. unfold run_internal in H.
+    destruct (imm_get_s s) as [[ro s1]| | |] eqn:E1; cbn [bind] in H; try discriminate.
+    destruct ro as [r|].
+    - eapply good_drain; [|exact H]. eapply good_imm_get_some; eauto.
+    - assert (HG1 : Good s1) by (eapply good_imm_get_none; eauto).
+      destruct (timer_min s1) as [tvo s2] eqn:Em. destruct (good_timer_min s1 tvo s2 HG1 Em) as [HG2 _].
+      eapply good_main; [|exact H]. apply good_net_select. exact HG2.
+  Qed.
+
+  Lemma Good_set_intr s b : Good s -> Good (set_intr s b).
+  Proof. intros HG. eapply Good_congr; [exact HG | | | | | | | |]; reflexivity. Qed.
+
+  Lemma good_events_run fuel s s' : Good s -> events_run prog fuel s = Ok s' -> Good s'.
+  Proof.
+    intros HG H. unfold events_run in H.
+    destruct (run_internal prog fuel (emit ERunStart s)) as [[rc s1]| | |] eqn:E; cbn [bind] in H; try discriminate.
+    inversion H; subst. apply Good_neutral; [|exact I]. apply Good_set_intr.
+    eapply good_run_internal; [|exact E]. apply Good_neutral; [exact HG | exact I].
+  Qed.
+
+  Lemma good_spin_loop fuel : forall rc s rc' s',
+    Good s -> spin_loop prog fuel rc s = Ok (rc', s') -> Good s'.
+  Proof.
+    induction fuel as [|fuel IH]; intros rc s rc' s' HG H; cbn [spin_loop] in H; [discriminate|].
+    destruct (negb (cl_done (s_cl s)) && (rc =? 0)%Z && negb (s_intr s)); [|inversion H; subst; exact HG].
+    destruct (run_internal prog (S fuel) s) as [[rc1 s1]| | |] eqn:E; cbn [bind] in H; try discriminate.
+    eapply IH; [|exact H]. eapply good_run_internal; eauto.
+  Qed.
+
+  Lemma good_events_spin fuel s s' : Good s -> events_spin prog fuel s = Ok s' -> Good s'.
+  Proof.
+    intros HG H. unfold events_spin in H.
+    destruct (spin_loop prog fuel 0%Z (emit ESpinStart s)) as [[rc s1]| | |] eqn:E; cbn [bind] in H; try discriminate.
+    inversion H; subst. apply Good_neutral; [|exact I]. apply Good_set_intr.
+    eapply good_spin_loop; [|exact E]. apply Good_neutral; [exact HG | exact I].
+  Qed.
+
+  Lemma good_exec_xop fuel x s s' : Good s -> xop_norm x -> exec_xop prog fuel x s = Ok s' -> Good s'.
+  Proof.
+    intros HG Hn H. destruct x; simpl in H.
+    - eapply good_exec_op; eauto.
+    - eapply good_events_run; eauto.
+    - eapply good_events_spin; eauto.
+  Qed.
+
+  Lemma good_exec_xops fuel l : forall s s',
+    Good s -> Forall xop_norm l -> exec_xops prog fuel l s = Ok s' -> Good s'.
+  Proof.
+    induction l as [|x l IH]; intros s s' HG Hn H; simpl in H.
+    - inversion H; subst. exact HG.
+    - destruct (exec_xop prog fuel x s) as [s1| | |] eqn:E; cbn [bind] in H; try discriminate.
+      inversion Hn; subst. eapply IH; [|eassumption|exact H]. eapply good_exec_xop; eauto.
+  Qed.
+End DispatcherProofs.
+
+(* ================================================================ the initial state *)
+Lemma nth_error_repeat_nil {A} (n p : nat) (q : list A) : nth_error (repeat [] n) p = Some q -> q = [].
+Proof. intros H. apply nth_error_In in H. apply repeat_spec in H. exact H. Qed.
+
+Lemma Good_init pl cl : Forall (fun t => tv_norm t = true) cl -> Good (st_init pl cl).
+Proof.
+  intros Hcl. exists c4_init. split; [reflexivity|].
+  apply Sim_build; unfold st_init;
+    cbn [s_cl s_imm s_net s_tmr s_env vars cl_live next_rid heads clocks lastclock heap c4_init c_live c_used c_lastpoll].
+  - refine (conj _ (conj _ (conj _ (conj _ (conj _ (conj _ (conj Hcl eq_refl))))))).
+    + constructor.
+    + intros g [].
+    + intros r [].
+    + intros r. split; [intros [] | intros [g [[] _]]].
+    + intros v r p H. discriminate H.
+    + intros v h H. discriminate H.
+  - split.
+    + intros p q r Hq Hr. apply nth_error_repeat_nil in Hq. subst q. destruct Hr.
+    + intros p q Hq. apply nth_error_repeat_nil in Hq. subst q. constructor.
+  - split; [apply NetInv_empty; reflexivity|]. split; [|split; [|split]].
+    + intros fd dir rc H. unfold field in H. simpl in H. destruct fd; discriminate.
+    + intros g fd dir [].
+    + intros fd dir rc g H. unfold rev_at, slot in H. simpl in H. destruct fd; destruct dir; discriminate.
+    + intros fd H. unfold rev_at, slot in H. simpl in H. destruct fd; discriminate.
+  - split; [intros x [] | constructor].
+Qed.
+
+(* ================================================================ the result *)
+(* Every trace the model can emit - for every program whose timer timeouts are normalised
+   (0 <= tv_usec < 1000000), every external call sequence, every schedule of poll answers,
+   every script of normalised clock readings and every fuel - is accepted by the C04 checker
+   of the specification. *)
+Theorem model_trace_accepted p xs pl cl fuel tr :
+  prog_norm p -> Forall xop_norm xs -> Forall (fun t => tv_norm t = true) cl ->
+  run_case p xs pl cl fuel = Ok tr -> check_c04 tr = true.
+Proof.
+  intros Hp Hx Hcl H. unfold run_case in H.
+  destruct (exec_xops p fuel xs (st_init pl cl)) as [s| | |] eqn:E; cbn [bind] in H; try discriminate.
+  inversion H; subst tr.
+  destruct (good_exec_xops p Hp fuel xs _ _ (Good_init pl cl Hcl) Hx E) as [c [Hc _]].
+  unfold check_c04. rewrite Hc. reflexivity.
+Qed.
+
+Corollary model_C04_holds p xs pl cl fuel tr :
+  prog_norm p -> Forall xop_norm xs -> Forall (fun t => tv_norm t = true) cl ->
+  run_case p xs pl cl fuel = Ok tr -> C04_holds tr.
+Proof. intros. apply check_c04_sound. eapply model_trace_accepted; eauto. Qed.
+
+(* the statements in the form used by Properties_C04_events.v *)
+Definition runs_to (p : program) (xs : list xop) (pl : list pollraw) (cl : list tv) (fuel : nat)
+  (tr : trace) : Prop :=
+  prog_norm p /\ Forall xop_norm xs /\ Forall (fun t => tv_norm t = true) cl /\
+  run_case p xs pl cl fuel = Ok tr.
+
+Lemma runs_to_accepted p xs pl cl fuel tr : runs_to p xs pl cl fuel tr -> check_c04 tr = true.
+Proof. intros [A [B [C D]]]. exact (model_trace_accepted p xs pl cl fuel tr A B C D). Qed.
+
+Lemma runs_to_holds p xs pl cl fuel tr : runs_to p xs pl cl fuel tr -> C04_holds tr.
+Proof. intros H. apply check_c04_sound. eapply runs_to_accepted; eauto. Qed.
+
+Lemma runs_to_once : forall p xs pl cl fuel tr, runs_to p xs pl cl fuel tr -> invoke_at_most_once tr.
+Proof. intros p xs pl cl fuel tr H. exact (proj1 (runs_to_holds _ _ _ _ _ _ H)). Qed.
+Lemma runs_to_registered : forall p xs pl cl fuel tr, runs_to p xs pl cl fuel tr -> invoke_only_while_registered tr.
+Proof. intros p xs pl cl fuel tr H. exact (proj1 (proj2 (runs_to_holds _ _ _ _ _ _ H))). Qed.
+Lemma runs_to_rereg : forall p xs pl cl fuel tr, runs_to p xs pl cl fuel tr -> reregistrable tr.
+Proof. intros p xs pl cl fuel tr H. exact (proj1 (proj2 (proj2 (runs_to_holds _ _ _ _ _ _ H)))). Qed.
+Lemma runs_to_socket : forall p xs pl cl fuel tr, runs_to p xs pl cl fuel tr -> socket_invoke_justified tr.
+Proof. intros p xs pl cl fuel tr H. exact (proj1 (proj2 (proj2 (proj2 (runs_to_holds _ _ _ _ _ _ H))))). Qed.
+Lemma runs_to_timer : forall p xs pl cl fuel tr, runs_to p xs pl cl fuel tr -> timer_not_early tr.
+Proof. intros p xs pl cl fuel tr H. exact (proj2 (proj2 (proj2 (proj2 (runs_to_holds _ _ _ _ _ _ H))))). Qed.
+Lemma runs_to_accepted_all : forall p xs pl cl fuel tr, runs_to p xs pl cl fuel tr -> check_c04 tr = true.
+Proof. intros. eapply runs_to_accepted; eauto. Qed.
